@@ -1,7 +1,14 @@
 /-
   C20 — LIST wildcard matching follows IMAP semantics.  Property theorems only.
+
+  Proved here: matchList_iff, matchNFA_iff, matchList_eq_matchNFA, MatchList_iff_delim,
+  MatchList_iff_nodelim, MatchList_iff, MatchList_resolved, star_matches_all, pct_no_delim,
+  literal_only.
+  Left out (not modelled, so not stated): delimiters whose UTF-8 encoding has more than one byte
+  (`delimStr.length > 1`, `delimByte = none`); the Spec's `resolveMatch` is only defined for a
+  single-byte or absent delimiter.
 -/
-import GoImap.Lemmas.ListMatch
+import GoImap.Lemmas.ListMatchTop
 namespace GoImap.C20
 open GoImap.ListMatch GoImap.ListMatchSpec GoImap.ListMatchLemmas
 
@@ -58,5 +65,135 @@ theorem matchList_iff (delim : Option B) (pat name : List B) :
 /-- non-vacuity: a concrete pattern with both wildcards matches / does not match as expected -/
 example : matchList (some 47) [97, 37, 47, 42] [97, 98, 47, 99, 47, 100] = true := by decide
 example : matchList (some 47) [97, 37] [97, 47, 98] = false := by decide
+
+/-- the independent position-set matcher of the Spec decides the same relation -/
+theorem matchNFA_iff (delim : Option B) (pat name : List B) :
+    matchNFA delim pat name = true ↔ Matches delim pat name :=
+  matchNFA_iff_matches delim pat name
+
+/-- the recursive matcher of list.go and the position-set matcher agree on every input -/
+theorem matchList_eq_matchNFA (delim : Option B) (pat name : List B) :
+    matchList delim pat name = matchNFA delim pat name := by
+  rw [Bool.eq_iff_iff, matchList_iff, matchNFA_iff]
+
+/-! ### top level: `MatchList(name, delim, reference, pattern)` -/
+
+/-- single-byte delimiter `d`: `MatchList` implements the documented resolution of
+    (reference, pattern) -/
+theorem MatchList_iff_delim (name : List B) (d : B) (reference pattern : List B) :
+    matchListTop name [d] (some d) reference pattern = resolveMatch name (some d) reference pattern :=
+  top_delim_of name d reference pattern (matchList_eq_matchNFA (some d))
+
+/-- no delimiter (rune 0) -/
+theorem MatchList_iff_nodelim (name : List B) (reference pattern : List B) :
+    matchListTop name [] none reference pattern = resolveMatch name none reference pattern :=
+  top_nodelim_of name reference pattern (matchList_eq_matchNFA none)
+
+/-- the delimiter string Go builds from an absent / single-byte delimiter -/
+def delimStrOf : Option B → List B
+  | some d => [d]
+  | none => []
+
+/-- both cases at once -/
+theorem MatchList_iff (name : List B) (delim : Option B) (reference pattern : List B) :
+    matchListTop name (delimStrOf delim) delim reference pattern =
+      resolveMatch name delim reference pattern := by
+  cases delim with
+  | none => exact MatchList_iff_nodelim name reference pattern
+  | some d => exact MatchList_iff_delim name d reference pattern
+
+/-- the reference as it is compared with the name: completed by the delimiter unless it is empty
+    or already ends with it -/
+def completeRef (delim : Option B) (reference : List B) : List B :=
+  match delim with
+  | some d => if reference = [] ∨ reference.getLast? = some d then reference else reference ++ [d]
+  | none => reference
+
+/-- relational reading of LIST's (reference, pattern) resolution, in terms of `Matches` only:
+    a pattern starting with the delimiter is absolute (the reference is ignored and the rest of the
+    pattern is matched against the whole name); otherwise the completed reference must be a prefix
+    of the name and the pattern is matched against what follows it -/
+def Resolved (delim : Option B) (reference pattern name : List B) : Prop :=
+  (∃ d ps, delim = some d ∧ pattern = d :: ps ∧ Matches delim ps name) ∨
+  ((∀ d, delim = some d → pattern.head? ≠ some d) ∧
+    ∃ rest, name = completeRef delim reference ++ rest ∧ Matches delim pattern rest)
+
+theorem MatchList_resolved (name : List B) (delim : Option B) (reference pattern : List B) :
+    matchListTop name (delimStrOf delim) delim reference pattern = true ↔
+      Resolved delim reference pattern name := by
+  rw [MatchList_iff]
+  cases delim with
+  | none =>
+    rw [resolveMatch_none, resolveRel_none_iff]
+    simp [Resolved, completeRef]
+  | some d =>
+    by_cases hp : pattern.head? = some d
+    · obtain ⟨ps, rfl⟩ : ∃ ps, pattern = d :: ps := by
+        cases pattern with
+        | nil => simp at hp
+        | cons p ps => exact ⟨ps, by simpa using hp⟩
+      rw [resolveMatch_abs, matchNFA_iff]
+      simp [Resolved]
+    · rw [resolveMatch_rel_some _ _ _ _ hp, resolveRel_some_iff]
+      have hne : ∀ ps, pattern ≠ d :: ps := by
+        rintro ps rfl; simp at hp
+      simp [Resolved, completeRef, hp, hne]
+
+/-- non-vacuity: absolute pattern, relative pattern with completed reference, no delimiter -/
+example : matchListTop [97, 47, 98] [47] (some 47) [120] [47, 97, 47, 37] = true := by decide
+example : matchListTop [97, 47, 98, 47, 99] [47] (some 47) [97] [37, 47, 99] = true := by decide
+example : matchListTop [97, 47, 98, 47, 99] [47] (some 47) [97] [37] = false := by decide
+example : matchListTop [97, 98, 99] [] none [97] [37] = true := by decide
+example : Resolved (some 47) [97] [37, 47, 99] [97, 47, 98, 47, 99] :=
+  (MatchList_resolved _ (some 47) _ _).mp (by decide)
+example : ¬ Resolved (some 47) [97] [37] [97, 47, 98, 47, 99] := fun h =>
+  absurd ((MatchList_resolved _ (some 47) _ _).mpr h) (by decide)
+
+/-! ### sanity theorems: what the wildcards mean -/
+
+/-- "*" matches every name -/
+theorem star_matches_all (delim : Option B) (name : List B) : Matches delim [42] name :=
+  .star [] name [] name (by simp) .nil
+
+/-- "%" matches exactly the names without a delimiter -/
+theorem pct_no_delim (d : B) (name : List B) : Matches (some d) [37] name ↔ d ∉ name := by
+  constructor
+  · intro h
+    cases h with
+    | lit _ _ _ hnw _ => simp [isWild] at hnw
+    | pct _ pre ns _ he hd hm =>
+      have := Matches.nil_pat hm
+      subst this
+      subst he
+      simpa using hd d rfl
+  · intro h
+    exact .pct [] name [] name (by simp) (by rintro d' hd'; cases hd'; exact h) .nil
+
+/-- a pattern without wildcards matches itself only -/
+theorem literal_only (delim : Option B) (pat name : List B) (hlit : ∀ c ∈ pat, isWild c = false) :
+    Matches delim pat name ↔ name = pat := by
+  induction pat generalizing name with
+  | nil =>
+    constructor
+    · intro h; exact Matches.nil_pat h
+    · rintro rfl; exact .nil
+  | cons c ps ih =>
+    have hc : isWild c = false := hlit c (by simp)
+    have ih' := fun nm => ih nm (fun x hx => hlit x (List.mem_cons_of_mem _ hx))
+    constructor
+    · intro h
+      cases h with
+      | lit _ _ ns _ hm => rw [(ih' ns).mp hm]
+      | star _ _ _ _ _ _ => simp [isWild] at hc
+      | pct _ _ _ _ _ _ _ => simp [isWild] at hc
+    · rintro rfl
+      exact .lit c ps ps hc ((ih' ps).mpr rfl)
+
+example : Matches (some 47) [37] [97, 98] := (pct_no_delim 47 _).mpr (by decide)
+example : ¬ Matches (some 47) [37] [97, 47, 98] := fun h => absurd ((pct_no_delim 47 _).mp h) (by decide)
+example : Matches (some 47) [97, 47, 98] [97, 47, 98] :=
+  (literal_only _ _ _ (by decide)).mpr rfl
+example : ¬ Matches (some 47) [97, 47, 98] [97, 47, 99] := fun h =>
+  absurd ((literal_only _ _ _ (by decide)).mp h) (by decide)
 
 end GoImap.C20
